@@ -1,7 +1,7 @@
 """C04 - incremental edits leave the same library as a fresh start (structural necessary conditions)."""
 from vlib import factbase as fb
 from vlib import q
-from .common import pname, ctx, loc, chain_up, self_field, field_of, match_arms_on, arms_by_variant, is_empty_body, in_closure_of_option_method, strip_refs
+from .common import pname, ctx, loc, chain_up, self_field, field_of, match_arms_on, arms_by_variant, is_empty_body, in_closure_of_option_method, strip_refs, delegates_to
 
 REFINDEX = "liwe::graph::index::RefIndex"
 GRAPH = "liwe::graph::Graph"
@@ -327,6 +327,10 @@ def rule_r4(facts, rep, rid="C04-R4"):
     for name in ("Database::update_document", "Database::insert_document"):
         f = facts.fn(name)
         rep.saw_fn(f)
+        other = "Database::insert_document" if name.endswith("update_document") else "Database::update_document"
+        if delegates_to(f, other) and not delegates_to(facts.fn(other), name):
+            rep.ok(rid, f.def_ + "|update-content-paths", "forwards its arguments to %s (checked as such)" % other, f.loc)
+            continue
         cfg = f.cfg
         up = cfg.calls(lambda p: p.endswith("Graph::update_key"))
         ins = cfg.calls(lambda p: p.endswith("HashMap::insert"))
